@@ -61,4 +61,29 @@ theorem pipeline_sema_src : pipeline_sema = "s.conf.MaxPipelineCount" := by deci
 /-- A request counter allocates `count + 1` stamps (`Config.handle`). -/
 theorem ring_size_src : ring_size = "num + 1" := by decide
 
+def ifaceCasesExp : String := "l == nil | l.Port == 0 | l.Interface == \"\" | default"
+/-- `interfaceListener.validate`: a zero port is `empty value` (`Config.valIface`). -/
+theorem iface_cases_src : iface_cases = ifaceCasesExp := rfl
+
+def iflistCasesExp : String := "c == nil | c.ChannelBufferSize <= 0 | len(c.List) == 0 | default"
+/-- `interfaceListenersConfig.validate`: optional section, buffer size, then the list (`Config.valIface`). -/
+theorem iflist_cases_src : iflist_cases = iflistCasesExp := rfl
+
+def ddrPortCasesExp : String :=
+  "r.HTTPSPort != 0 && r.HTTPSPort == r.TLSPort | r.HTTPSPort == 0 && r.QUICPort == 0 && r.TLSPort == 0 | default"
+/-- `ddrRecord.validatePorts` (`Config.valPorts`). -/
+theorem ddr_port_cases_src : ddr_port_cases = ddrPortCasesExp := rfl
+
+def hcCasesExp : String :=
+  "c == nil | !c.Enabled | c.DomainTmpl == \"\" | c.Interval.Duration <= 0 | c.Timeout.Duration <= 0 | c.BackoffDuration.Duration <= 0"
+/-- `upstreamHealthcheckConfig.validate` (`Config.valUpstream`). -/
+theorem hc_cases_src : hc_cases = hcCasesExp := rfl
+
+/-- `queryLogConfig.validate` (`Config.valQueryLog`). -/
+theorem ql_cases_src : ql_cases = "c == nil | c.File == nil | default" := by decide
+
+def sgCasesExp : String := "g == nil | g.Name == \"\" | g.FilteringGroup == \"\""
+/-- `serverGroup.validate` starts with the name and the filtering-group reference (`Config.valSrvGroups`). -/
+theorem sg_cases_src : sg_cases = sgCasesExp := rfl
+
 end Agd.Tie.C20
